@@ -200,6 +200,12 @@ func checkC18(c *Check) {
 	// is built for a memory filter (C10.R4), never as a stand-in for a Redis filter
 	if c.ID == "C18" {
 		importObls(c, "C10", checkC10, "C18.R2", func(o *Obligation) bool { return strings.HasPrefix(o.Key, "C10.R4/memory-store-for-a-memory-filter") })
+		// each filter's token requests carry its own credentials, built for that request (C04.R1/R2 tables), over its own trust
+		// store (C20.R2)
+		importObls(c, "C04", checkC04, "C18.R3", func(o *Obligation) bool {
+			return strings.HasPrefix(o.Key, "C04.R1/anchor") || strings.HasPrefix(o.Key, "C04.R2/headers") || strings.HasPrefix(o.Key, "C04.R2/exchange-sends-table")
+		})
+		importObls(c, "C20", checkC20, "C18.R3", func(o *Obligation) bool { return strings.HasPrefix(o.Key, "C20.R2/rootcas-provenance") })
 	}
 
 	// ---- R3
@@ -283,6 +289,7 @@ func checkC18(c *Check) {
 	discoveryCacheKeyRule(c, "C18.R3")
 	cookieNameIsInjective(c, "C18.R1", R)
 	transportIsOwn(c, "C18.R3")
+	factoryGetIsALookup(c, "C18.R1")
 	// the key set a filter verifies with is derived from its own configuration (C02.R5's key-set provenance)
 	importObls(c, "C02", checkC02, "C18.R3", func(o *Obligation) bool { return strings.HasPrefix(o.Key, "C02.R5/keyset") })
 	handlerConfigOwn(c, "C18.R3", R)
@@ -954,6 +961,8 @@ func checkC19(c *Check) {
 		}
 	}
 	handlerConfigOwn(c, "C19.R5", R)
+	// … and the credentials built from it reach the token endpoint as they were built (C04.R2's transport rule)
+	transportPreservesRequest(c, "C19.R5")
 	c.Obl(cached == "", "C19.R5", "no-cached-secret", "-", "no own struct field is assigned from GetClientSecret()", "the client secret is cached in "+cached+": a later reconcile would not reach requests built from the cached copy")
 }
 
@@ -1102,4 +1111,99 @@ func handlerConfigOwn(c *Check, rule string, R *Roles) {
 		}
 		c.Obl(nCfg >= 1, rule, "handler-config-field", P.Pos(R.NewOIDC.Pos()), "the handler literal stores its configuration", "no configuration field found in the handler literal (anchor lost)")
 	}
+}
+
+// factoryGetIsALookup: the store a filter works with is decided by its configuration alone — the Redis
+// store registered under the filter's server URI, and the shared in-memory store only when no store is
+// registered under that URI. A fallback that depends on anything else (a health probe, a counter, the
+// time) moves a filter's sessions between stores: a logout removes the session from the wrong one.
+func factoryGetIsALookup(c *Check, rule string) {
+	P := c.P
+	get := P.Func(pkgOIDC, "(*sessionStoreFactory).Get")
+	if !c.Anchor(rule, "sessionStoreFactory.Get", get != nil) {
+		return
+	}
+	ff := FactsOf(get)
+	var lk *ssa.Lookup
+	for _, b := range get.Blocks {
+		for _, ins := range b.Instrs {
+			if l, ok := ins.(*ssa.Lookup); ok {
+				if _, f, isL := fieldLoad(resolveCell(stripConv(l.X))); isL && f != nil && f.Name() == "redis" {
+					lk = l
+				}
+			}
+		}
+	}
+	if !c.Anchor(rule, "lookup of the Redis store map in Get", lk != nil) {
+		return
+	}
+	okKey := false
+	if kc, _, isC := asCall(resolveCell(stripConv(lk.Index))); isC && strings.HasSuffix(funcID(calleeOf(kc).Obj), "RedisConfig.GetServerUri") {
+		okKey = true
+	}
+	c.Obl(okKey, rule, "factory-get/key", P.Pos(lk.Pos()), "the Redis store is looked up under the filter's server URI", "Get looks the Redis store up under "+descDepth(lk.Index, 3)+", not under the filter's server URI itself")
+	bad := ""
+	n := 0
+	for _, r := range returnsOf(get) {
+		if len(r.Results) == 0 {
+			continue
+		}
+		for _, alt := range phiAlternatives(get, r.Results[0], r) {
+			v := resolveCell(stripConv(alt.V))
+			_, f, isL := fieldLoad(v)
+			if !isL || f == nil || f.Name() != "memory" {
+				continue
+			}
+			n++
+			// the memory store is chosen only because the lookup missed (or the URI is empty)
+			fs := unionFacts(ff.At(r), alt.Facts)
+			for cond, pol := range fs {
+				inner, neg := unwrapBool(cond)
+				if ex, isE := inner.(*ssa.Extract); isE && ex.Tuple == ssa.Value(lk) && ex.Index == 1 {
+					continue
+				}
+				if bo, isB := inner.(*ssa.BinOp); isB {
+					if isNilConst(bo.Y) || isNilConst(bo.X) {
+						continue // cfg == nil and similar
+					}
+					if s, isS := constString(bo.Y); isS && s == "" {
+						continue
+					}
+				}
+				_ = pol
+				_ = neg
+				if _, isPhi := inner.(*ssa.Phi); isPhi {
+					continue
+				}
+				bad = descDepth(inner, 3)
+			}
+		}
+	}
+	// … and the block that picks the in-memory store is entered only over edges on which the lookup is known to have
+	// missed (`!ok || somethingElse` enters it over a second edge)
+	for _, b := range get.Blocks {
+		for _, ins := range b.Instrs {
+			ld, isL := ins.(*ssa.UnOp)
+			if !isL || ld.Op != token.MUL {
+				continue
+			}
+			if _, f, isF := fieldLoad(ld); !isF || f == nil || f.Name() != "memory" {
+				continue
+			}
+			for _, p0 := range b.Preds {
+				missed := false
+				for cond, pol := range ff.OnEdge(p0, b) {
+					inner, neg := unwrapBool(cond)
+					if ex, isE := inner.(*ssa.Extract); isE && ex.Tuple == ssa.Value(lk) && ex.Index == 1 && (pol != neg) == false {
+						missed = true
+					}
+				}
+				if !missed {
+					bad = "an edge from " + p0.String() + " on which the lookup did not miss"
+				}
+			}
+		}
+	}
+	c.Obl(bad == "" && n >= 1, rule, "factory-get/memory-only-on-miss", P.Pos(get.Pos()), "the in-memory store is handed out only when no Redis store is registered under the filter's URI",
+		"Get hands out the in-memory store under a condition other than a missed lookup ("+bad+"): a filter's sessions move between stores")
 }
